@@ -11,8 +11,8 @@ SPEC = {
                   "sub-target (C25_subtargets), and no file a needed target uses as source or data is proposed for deletion (C25_srcs), for "
                   "every graph, gc_sibling labels, tests of tests and all arguments; `Needed` is the least fixpoint of roots, dependencies and "
                   "'a test of a needed target'. The four defects of the pinned code were repaired with fix: commits (9dea07a, 0ef96ba, f5ccc0d, "
-                  "031fda8). Theorems are about the transcription Model/GC.lean and conditional on the model not reaching its recursion bound "
-                  "(proved unreachable with --conservative); subrepos, `//pkg/...` arguments, wildcard labels and the BUILD file rewriting are "
+                  "031fda8). Theorems are about the transcription Model/GC.lean; the model's recursion bounds are proved unreachable "
+                  "(C25_fuel: graphs that hold their dependencies and have no dependency cycle inside one rule); subrepos, `//pkg/...` arguments, wildcard labels and the BUILD file rewriting are "
                   "not modelled",
     "technique": "Lean 4 DFS-closure invariant for addTarget lifted through every pass, fixpoint closure of the repeated test pass, completeness of publicDependencies + regenerated "
                  "facts + differential correspondence with an independent least-fixpoint oracle",
